@@ -134,7 +134,10 @@ class C03(Prop):
                     "target": r.randrange(16, 31), "fan": r.choice(["AUTO", "LOW", "MEDIUM", "HIGH"]), "swing": r.choice(["ON", "OFF"]),
                     "remote_id": "ELEC7001"}
         family = {}
-        self.dev.responder = td.auto_responder(thermostat=reported, family=lambda conn: family.get(conn.id, "thermostat"), rnd=r)
+        from ..ref import replies as _rp
+
+        recs = [_rp.schedule_record(k2, r.choice([0, 2, 0x54, 0xFE]), 1_700_000_000 + k2 * 3600, 1_700_003_600 + k2 * 3600) for k2 in range(r.randrange(0, 9))]
+        self.dev.responder = td.auto_responder(thermostat=reported, family=lambda conn: family.get(conn.id, "thermostat"), rnd=r, schedule_records=recs)
         clock.set_zone(r.choice(env.ZONES))   # nothing on the wire depends on the host zone
         t0 = float(r.randrange(1_000_000, 4_000_000_000)) + r.choice([0.0, 0.2, 0.8])
         world = {"zone": "UTC", "now": t0, "reported": reported}
